@@ -183,7 +183,9 @@ func newValueSet(count int, get func(int) reflect.Type) (*ValueSet, error) {
 func newValueSetFromStruct(typ reflect.Type) (*ValueSet, error) {
 	// Unwrap any pointers around our struct type and count the number of
 	// pointer derefs. We need to know the count to reconstruct it later.
-	var ptrCount uint8
+	// Count in an int: a uint8 counter wraps around for 256 or more levels of
+	// indirection and would let such types through the check below.
+	var ptrCount int
 	for typ.Kind() == reflect.Ptr {
 		typ = typ.Elem()
 		ptrCount++
@@ -200,7 +202,7 @@ func newValueSetFromStruct(typ reflect.Type) (*ValueSet, error) {
 	// We will accumulate our results here
 	result := &ValueSet{
 		structType:     typ,
-		structPointers: ptrCount,
+		structPointers: uint8(ptrCount),
 		values:         []*Value{},
 		namedValues:    map[string]*Value{},
 		typedValues:    map[reflect.Type]*Value{},
